@@ -234,7 +234,7 @@ func (r *run) doDeliver(sname string, real int, a *Act) bool {
 	var isApp bool
 	var out []byte
 	var err error
-	p, what := guard(func() { isApp, out, err = s.s.Deliver(nil, r.msgs[real-1].bytes, r.now) })
+	p, what := guard(func() { isApp, out, err = s.s.Deliver(nil, wireCopy(r.msgs[real-1].bytes), r.now) })
 	if p {
 		ev.Panic, ev.PanicV = true, what
 		r.emit(ev)
@@ -334,7 +334,7 @@ func (r *run) settle() {
 			if len(m) == 0 {
 				return
 			}
-			to.s.Deliver(nil, m, r.now)
+			to.s.Deliver(nil, wireCopy(m), r.now)
 		}
 		pass(I, R)
 		pass(R, I)
@@ -352,7 +352,7 @@ func (r *run) settle() {
 				// count as use of the session for the authentication monitors; it only extends the message table)
 				r.emit(Event{Ev: "sealed", S: "-", Pt: pt, N: headerN(c), M: id, New: []Flat{*nf}, Leak: r.leak(c)})
 			}
-			isApp, out, err := to.s.Deliver(nil, c, r.now)
+			isApp, out, err := to.s.Deliver(nil, wireCopy(c), r.now)
 			return err == nil && isApp && string(out) == string(r.ptBytes(pt))
 		}
 		ev.FlowIR = flow(I, R, 5001)
@@ -363,3 +363,8 @@ func (r *run) settle() {
 	}
 	r.emit(ev)
 }
+
+// wireCopy: every delivery hands the session its own copy of the wire bytes - a retransmission or a network
+// duplicate is a new buffer with the same content, whatever the receiver did to the buffer of the first arrival
+// (a session may open a message in place; it must still recognise the repeat).
+func wireCopy(b []byte) []byte { return append([]byte(nil), b...) }
